@@ -205,4 +205,52 @@ theorem words_fill_fields_in_order (E : Env) : ∀ (ws : List Bytes) (s : PS) (q
         have := h4 k (by simp at hk; omega)
         rw [hother _ hmem] at this
         exact this
+/-! ### The rest slice -/
+
+
+/-- element-wise conversion of words into slice elements -/
+def ConvWords (E : Env) (tag : Tag) (sc : Sc) : List Bytes → List SVal → Prop
+  | [], [] => True
+  | w :: ws, v :: vs => convertSc E tag w sc = .ok v ∧ ConvWords E tag sc ws vs
+  | _, _ => False
+
+/-- **The rest slice absorbs every further word, in order**: with a slice field at the head of the
+    queue, any number of words that all convert end up appended to it in the order given; the field
+    stays pending, nothing goes to the remaining arguments, no error. -/
+theorem rest_slice_absorbs_all (E : Env) (sc : Sc) : ∀ (ws : List Bytes) (vs : List SVal) (s : PS) (p : Nat × Nat) (q : List (Nat × Nat))
+    (old : List SVal) (nl : Bool),
+    s.positional = p :: q → ArgValid s.P p → (s.P.argAt p).ty = .slice sc → (s.P.argAt p).val = .slice nl old →
+    ConvWords E (s.P.argAt p).tag sc ws vs →
+    (s.addArgs E ws).2 = none ∧ (s.addArgs E ws).1.retargs = s.retargs ∧ (s.addArgs E ws).1.positional = p :: q ∧
+    ((s.addArgs E ws).1.P.argAt p).val = (if ws = [] then .slice nl old else .slice false (old ++ vs)) := by
+  intro ws
+  induction ws with
+  | nil =>
+    intro vs s p q old nl hq _ _ hval _
+    simp [PS.addArgs, hq, hval]
+  | cons w ws ih =>
+    intro vs s p q old nl hq hvalid hty hval hconv
+    cases vs with
+    | nil => simp [ConvWords] at hconv
+    | cons v vs =>
+      obtain ⟨hc1, hcrest⟩ := hconv
+      have hrem : (s.P.argAt p).isRemaining = true := by unfold ArgD.isRemaining; rw [hty]
+      have hcv : convert E (s.P.argAt p).tag w (s.P.argAt p).ty (s.P.argAt p).val = .ok (.slice false (old ++ [v])) := by
+        rw [hty, hval]; simp [convert, hc1]; rfl
+      rw [slice_field_absorbs E s w ws p q _ hq hrem hcv]
+      let s' : PS := { s with P := s.P.modArg p fun ad => { ad with val := .slice false (old ++ [v]) }, positional := p :: q }
+      have hat : s'.P.argAt p = { s.P.argAt p with val := .slice false (old ++ [v]) } := argAt_modArg_same _ _ _ hvalid.1 hvalid.2
+      have := ih vs s' p q (old ++ [v]) false rfl (ArgValid_modArg _ _ _ _ hvalid) (by rw [hat]; exact hty) (by rw [hat])
+        (by rw [hat]; exact hcrest)
+      obtain ⟨h1, h2, h3, h4⟩ := this
+      refine ⟨h1, h2, h3, ?_⟩
+      rw [h4]
+      simp only [List.cons_ne_nil, if_false]
+      split
+      · next hnil =>
+        subst hnil
+        cases vs with
+        | nil => simp
+        | cons _ _ => simp [ConvWords] at hcrest
+      · simp
 end GoFlags.C10
